@@ -141,3 +141,64 @@ def walk_no_nested(node):
                           ast.Lambda)):
             continue
         todo.extend(ast.iter_child_nodes(n))
+
+
+def unalloc(fl, rf):
+    """The allocation expression behind an alloc atom (or rf itself)."""
+    at = atom_of(fl, rf)
+    if at is not None and at.head == 'alloc':
+        return at.args[0]
+    return rf
+
+
+def call_kw(at, name, pos=None):
+    """Keyword (or positional #pos) argument of a call atom."""
+    kwn = at.extra[1:]
+    npos = len(at.args) - len(kwn)
+    if name in kwn:
+        return at.args[npos + kwn.index(name)]
+    if pos is not None and pos < npos:
+        return at.args[pos]
+    return None
+
+
+def inline_calls(ix, fl, rf, module_relpath, names, depth=3):
+    """Replace calls of module-level functions `names` (resolved in
+    module_relpath, following aliases/imports) by the callee's single return
+    expression with parameters substituted.  One-level helpers only
+    (DESIGN 2.3); depth bounds nesting."""
+    from .index import FuncInfo
+    m = ix.module(module_relpath)
+
+    def f(a, at, nargs):
+        if at.head != 'call' or not at.extra or not at.extra[0].startswith('fn:'):
+            return None
+        nm = at.extra[0][3:]
+        if nm not in names:
+            return None
+        tgt = ix.resolve_name(m, nm)
+        if not isinstance(tgt, FuncInfo):
+            raise AnalysisError('helper %s does not resolve to a function' % nm)
+        kwn = at.extra[1:]
+        npos = len(nargs) - len(kwn)
+        ps = tgt.params()
+        env = {}
+        for p, v in zip(ps, nargs[:npos]):
+            env[p] = v
+        for k, v in zip(kwn, nargs[npos:]):
+            env[k] = v
+        # defaults for missing params
+        defs = tgt.node.args.defaults
+        for p, d in zip(ps[len(ps) - len(defs):], defs):
+            if p not in env:
+                env[p] = Conv(fl.tab, {}, None).expr(d)
+        sub = Flow(tgt, Conv(fl.tab, env, None))
+        sub.run()
+        rets = sub.of('return')
+        if len(rets) != 1 or rets[0].value is None:
+            raise AnalysisError('helper %s does not have a single return' % nm)
+        val = rets[0].value
+        if depth > 0:
+            val = inline_calls(ix, fl, val, tgt.module.relpath, names, depth - 1)
+        return val
+    return fl.tab.rewrite(rf, f)
